@@ -36,7 +36,7 @@ XERCES_SCEN = {"prebuiltXerces", "evalDocXerces"}
 INVALID = {"truncate", "dropTag", "dupTag", "swapTag", "unclosedQuote", "illegalChar", "brokenUtf8", "loneSurrogate", "fffe", "nul",
            "unknownXmlEncoding", "wrongXslNamespaceRoot", "unknownXslElement", "unknownXslAttribute", "missingRequiredAttribute",
            "avtUnbalanced", "nonExpression", "undefinedVariable"}
-OPEN = {"unknownOutputEncoding", "xpathIllegalChar", "fuzz"}
+OPEN = {"unknownOutputEncoding", "xpathIllegalChar", "fuzz", "xmlDeclVersion"}
 SAN_ENV = {"ASAN_OPTIONS": "detect_leaks=1:abort_on_error=0:handle_segv=0:handle_abort=0:handle_sigbus=0:handle_sigfpe=0:handle_sigill=0:"
                            "allocator_may_return_null=1:detect_stack_use_after_return=0:malloc_context_size=12:fast_unwind_on_malloc=1",
            "UBSAN_OPTIONS": "print_stacktrace=1:halt_on_error=1", "LSAN_OPTIONS": "print_suppressions=0:max_leaks=3"}
@@ -343,7 +343,7 @@ def variant_of(it):
     """the part of the descriptor that names the variant inside its class (for accepted / refused keys)"""
     d = it["desc"]
     cls = d["cls"]
-    if cls in ("missingRequiredAttribute", "unknownXslElement", "avtUnbalanced", "unknownOutputEncoding", "unknownXmlEncoding", "longName"):
+    if cls in ("missingRequiredAttribute", "unknownXslElement", "avtUnbalanced", "unknownOutputEncoding", "unknownXmlEncoding", "xmlDeclVersion", "longName"):
         return d.get("v", "")
     if cls == "nonExpression":
         return (d.get("kind", "") + " " + d.get("v", "")).strip()
